@@ -138,6 +138,20 @@ theorem proc_extends (env : Env) (m : Mode) :
     · by_cases hp : c.test.pred d = true
       · simp only [hp, ↓reduceIte]; exact ⟨[], by simp⟩
       · simp only [hp, ↓reduceIte, Bool.false_eq_true]; exact ⟨[issueOfTest env (render path) "custom" c.test], by simp [emit]⟩
+  | .pre ps inner, tag, path, v, d, st => by
+    unfold proc
+    cases m <;> simp only
+    · cases ps.accept v
+      · exact Extends.emit _ _
+      · simp only [↓reduceIte]
+        rcases hr : ps.run v with ⟨v', e⟩
+        cases e with
+        | none => exact Extends.trans ⟨[], by simp⟩ (proc_extends env .parse inner tag path v' d _)
+        | some e => exact ⟨[issueOfPostErr env (render path) inner.dtype e], by simp [emit]⟩
+    · rcases hr : ps.runD d with ⟨d', e⟩
+      cases e with
+      | none => exact Extends.trans ⟨[], by simp⟩ (proc_extends env .validate inner tag path v d' _)
+      | some e => exact ⟨[preErrIssue env (render path) inner.dtype e], by simp [emit]⟩
 theorem procKey_extends (env : Env) (m : Mode) :
     ∀ (fs : Fields) (key : String) (tag : Option String) (prov : Engine.Prov) (path : List String) (d : DVal) (st : St),
       Extends st (procKey env m fs key tag prov path d st).2
